@@ -24,10 +24,16 @@ Good(e) == /\ e.res = "ok"
            /\ { e.bps[k] : k \in 1 .. Len(e.bps) } = Breaks(e.ast)
            /\ SymOk(e)
 
+(* C19: when the event also carries the result of assembling the same text on a fresh thread, *)
+(* the two must coincide (same verdict, same image, same diagnostic)                           *)
+SameAsFresh(e) == "fres" \in DOMAIN e => (e.res = e.fres /\ e.words = e.fwords /\ e.orig = e.forig /\ e.diag = e.fdiag)
+(* texts that are not the rendering of a tree (lexer failures) only have a verdict *)
 Explains(e) ==
-  IF Accepts(e.ast, e.stack)
-  THEN Good(e) \/ (AnyAlias(Effective(e.ast)) /\ e.res = "err")      \* J1
-  ELSE e.res = "err"
+  /\ SameAsFresh(e)
+  /\ IF "lexfail" \in DOMAIN e /\ e.lexfail THEN e.res = "err"
+     ELSE IF Accepts(e.ast, e.stack)
+     THEN Good(e) \/ (AnyAlias(Effective(e.ast)) /\ e.res = "err")      \* J1
+     ELSE e.res = "err"
 
 TAsm == /\ l <= NRec /\ Ev.ev = "asm" /\ Explains(Ev)
         /\ l' = l + 1 /\ UNCHANGED bad
